@@ -29,7 +29,8 @@ func (store *Memory) beInitialized() {
 }
 
 func (store *Memory) OpenRead(lnkCtx linking.LinkContext, lnk datamodel.Link) (io.Reader, error) {
-	store.beInitialized()
+	// (No beInitialized here: reading a nil map is fine, and a read must not write to a store
+	// that other goroutines may be reading.)
 	cl, ok := lnk.(Link)
 	if !ok {
 		return nil, fmt.Errorf("incompatible link type: %T", lnk)
